@@ -152,9 +152,10 @@ class Canon:
         those), and every local it reads is either never written or written only before v's declaration (source order; the
         evaluated-argument vector is filled and then only read)"""
         ln = v.get('ln') or 0
+        isref = (v.get('type') or '').rstrip().endswith('&') and not (v.get('type') or '').rstrip().endswith('&&')
         for n in SX.walk(v['init'], into_lambdas=False):
-            if n['k'] == 'this':
-                return False
+            if n['k'] == 'this' and not isref:
+                return False        # (a reference local IS the member element it is bound to, whatever callees do to its value)
             if n['k'] == 'ref' and n.get('kind') in ('var', 'param', 'binding') and n.get('id') in self.written:
                 if any(w >= ln for w in self.wlines.get(n['id'], [10 ** 9])):
                     return False
